@@ -905,6 +905,12 @@ func (f *FnVC) rangeIndexInvariant(li *loopInfo) {
 		return // bound computed inside the loop
 	}
 	li.names["$rangelen"] = cmp.Y
+	if call, ok := cmp.Y.(*ssa.Call); ok {
+		if b, ok := call.Call.Value.(*ssa.Builtin); ok && b.Name() == "len" && len(call.Call.Args) == 1 {
+			// the slice (or string) being ranged over, for loops over an unnamed expression
+			li.names["rangeover"] = call.Call.Args[0]
+		}
+	}
 	cp := *li.spec
 	c, err := mkClause("-1 <= rangeindex && rangeindex < $rangelen")
 	if err != nil {
